@@ -361,7 +361,8 @@ func (m *BigMap) Rest() Object {
 	}
 	nl := len(m.kv) - 1
 	if nl > MaxSmallMap {
-		return &BigMap{kv: m.kv[1:]}
+		// A copy: sharing m's storage let a later set or delete on the result shift m's own pairs around.
+		return &BigMap{kv: slices.Clone(m.kv[1:])}
 	}
 	res := SmallMap{len: nl}
 	copy(res.smallKV[:nl], m.kv[1:])
@@ -371,7 +372,7 @@ func (m *BigMap) Rest() Object {
 func (m *BigMap) Range(l, r int64) Object {
 	nl := r - l
 	if nl > MaxSmallMap {
-		return &BigMap{kv: m.kv[l:r]}
+		return &BigMap{kv: slices.Clone(m.kv[l:r])} // a copy, like Rest.
 	}
 	res := SmallMap{len: int(nl)}
 	copy(res.smallKV[:nl], m.kv[l:r])
